@@ -380,6 +380,7 @@ def summarise(pid, tier, verif_seed, results, stopped_early, wall, mod, extra=No
         "simulated_time": "not applicable (no clock in the system under test)",
         "components": getattr(mod, "COMPONENTS", {}),
         "stopped_early": stopped_early,
+        "slowest_run": max(({"run_index": r["idx"], "wall_s": round(r.get("wall") or 0.0, 2)} for r in results), key=lambda d: d["wall_s"], default=None),
     }
     if extra:
         cov.update(extra)
